@@ -25,7 +25,7 @@ from vlib.proto import hexs, unhex
 HARNESS = "api_life"
 # findings this module knows how to recognise (entries in findings.d/life.json)
 FINDINGS = ["F19", "F21", "F111", "F112", "F113", "F114", "F115", "F116", "F117", "F118", "F119", "F150", "F151", "F152", "F153", "F154", "F155", "F156", "F157", "F158",
-            "F440", "F441"]
+            "F440", "F441", "F442"]
 # a leak report is symbolized by an external process per frame batch: keep it short
 ENV = {"LSAN_OPTIONS": "exitcode=96:max_leaks=2"}
 NSLOT = 6
@@ -1743,6 +1743,11 @@ def seed_f440():
     return 0, 4, [O("px", 2, 0, P_ONLY, 0, '<c xmlns="urn:lfa"><li><k>b</k></li></c>'), O("pinp", 2, "/lfa:c/li[k='b']", 0, P_STRICT, V_PRESENT, "", 1)]
 
 
+def seed_f442():
+    """failed lyd_parse_data() of a JSON document under a parent: list and leaf-list instances stay in the parent"""
+    return 0, 4, [O("px", 2, 0, P_ONLY, 0, '<c xmlns="urn:lfa"><a>x</a></c>'), O("pinp", 2, "/lfa:c", 1, P_STRICT, V_PRESENT, '{"lfa:sl":[1,2],"lfa:li":[{"k":"q"}],"lfa:a":[]}')]
+
+
 def seed_f441():
     """lyd_parse_data() with a parent whose validation fails: *tree keeps pointing to the freed first parsed child"""
     return 2, 4, [O("px", 2, 0, P_ONLY, 0, '<r xmlns="urn:lfd"><m1>x</m1></r>'), O("pinp", 2, "/lfd:r", 0, P_STRICT, V_PRESENT, '<m2 xmlns="urn:lfd"><q>1</q></m2>')]
@@ -2036,6 +2041,9 @@ def classify(component, what, case):
     if law in ("leak", "drec", "dref", "warn") and leakat.startswith(("lyd_create_", "lyd_new_implicit")) and _has_full_validation_subparse(line):
         # the lost implicit nodes (and, when they are terminal nodes, the dictionary strings they hold)
         return "F115"
+    if law == "left" and _ops_with(line, ("pinp",), lambda n, r: r[2] == "1"):
+        # JSON: the instances of a list / leaf-list (array members) are not remembered as parsed
+        return "F442"
     if law == "onn" and _failed_subparse(line, rep):
         # *tree of a failed lyd_parse_data(parent) is the first child of the parent / the (freed) first parsed child
         return "F441"
@@ -2061,6 +2069,7 @@ LAWS = [("drec", "dictionary records differ from the baseline after all trees we
         ("warn", "dictionary warning at ly_ctx_destroy (string not freed)"),
         ("leak", "memory leak reported by LeakSanitizer"),
         ("onn", "a failing call left a non-NULL output"),
+        ("left", "a failing lyd_parse_data(parent) left parsed nodes in the parent"),
         ("integ", "node links broken after an operation (integrity walk)")]
 
 
@@ -2196,7 +2205,7 @@ def run_life(cx, workers=None):
             "merge/diff), validated subtree parses (F119, 2%), late-failing loads of a module whose submodule derives identities from a surviving module under a prefix of its own (4%); non-trivial = distinct history whose reply reports at least one successful and one failing library call")
 
     hist = []       # (set, ctxopts, ops, kinds, stream)
-    for s in (seed_f19(), seed_f19_key(), seed_f21(), seed_f111(), seed_f112(), seed_f113(), seed_f114(), seed_f114b(12), seed_f114b(26), seed_f114b(30), seed_f114b(40), seed_f115(), seed_f116(), seed_f119(), seed_f440(), seed_f441(), seed_f121(), seed_f123(), seed_f123b(), seed_f124(), seed_f125(), seed_f126(), seed_f127(), seed_f128(0), seed_f128(1)):
+    for s in (seed_f19(), seed_f19_key(), seed_f21(), seed_f111(), seed_f112(), seed_f113(), seed_f114(), seed_f114b(12), seed_f114b(26), seed_f114b(30), seed_f114b(40), seed_f115(), seed_f116(), seed_f119(), seed_f440(), seed_f441(), seed_f442(), seed_f121(), seed_f123(), seed_f123b(), seed_f124(), seed_f125(), seed_f126(), seed_f127(), seed_f128(0), seed_f128(1)):
         hist.append((s[0], s[1], s[2], ["seed"] * len(s[2]), "seed"))
     hist += exhaustive_small(gen)
     n = int(os.environ.get("VERIF_LIFE_N", "0")) or cx.n(2200, 30000)
